@@ -338,6 +338,27 @@ impl World {
             }
         }
         self.sh.arena_mut(a).resurrected.clear();
+        // evidence: exotic layouts that lived through a cycle, converted edges that kept a value alive
+        let reach = self.sh.reach(a);
+        let mut exotic = vec![];
+        let mut conv_edge = false;
+        for (i, o) in self.sh.arena_objs(a) {
+            if o.released {
+                continue;
+            }
+            if let Some((_, len, _, size, align)) = o.lay {
+                if align > 16 || size == 0 || len == 0 {
+                    exotic.push(*i);
+                }
+            }
+            if reach.contains(i) && o.conv.iter().enumerate().any(|(k, c)| *c != Conv::None && o.strong.get(k).is_some_and(|e| e.is_some())) {
+                conv_edge = true;
+            }
+        }
+        self.rt[a as usize].exotic_survivors.extend(exotic);
+        if conv_edge {
+            self.stats.flag("C19.converted-edge-survived-cycle");
+        }
         let rt = &mut self.rt[a as usize];
         rt.up_stored.clear();
         rt.adopted_prev = std::mem::take(&mut rt.adopted_cur);
